@@ -13,13 +13,14 @@ VARIABLES i, config, nbad
 Ev == ndJsonDeserialize(IOEnv.FV_TRACE)
 Modes == {"error", "warning", "silent"}
 SetOf(s) == {s[k] : k \in 1..Len(s)}
-Allowed(e) == IF e.op = "config" /\ e.v \in Modes THEN {"config"} ELSE {}
+Allowed(e) == IF e.op = "config" /\ e.v \in Modes THEN {"config"} ELSE IF e.op = "register" THEN {"registry"} ELSE {}
 Clause(e, cfg) ==
   IF e.op = "reset" THEN "none"
   ELSE IF SetOf(e.changed) \ Allowed(e) # {} THEN "wrote_outside_write_set"
   ELSE IF e.op = "config" /\ e.v \in Modes /\ (e.status # "ok" \/ e.mode # e.v) THEN "documented_value_not_stored"
   ELSE IF e.op = "config" /\ e.v \notin Modes /\ (e.status = "ok" \/ e.mode # cfg) THEN "undocumented_value_accepted"
   ELSE IF e.op # "config" /\ e.mode # cfg THEN "config_changed_without_assignment"
+  ELSE IF e.op = "register" THEN (IF e.status = "ok" THEN "none" ELSE "registration_failed")
   ELSE IF e.op # "config" /\ e.status # e.ref_status THEN "status_differs_from_fresh_process"
   ELSE IF e.op # "config" /\ e.out # e.ref THEN "outcome_differs_from_fresh_process"
   ELSE "none"
